@@ -18,9 +18,12 @@ package mysql
 
 import (
 	"bytes"
+	"crypto/aes"
+	"crypto/cipher"
 	"fmt"
 	"io"
 	"net"
+	"runtime/debug"
 	"sort"
 	"strings"
 	"sync"
@@ -579,8 +582,18 @@ func c11Run(c c11Case, master []byte, wd time.Duration) (fails []c11Fail, st c11
 	return fails, st, false
 }
 
-func c11Master(seed uint64) []byte {
-	return kit.SubRand(seed, "C11/master").Bytes(3*c11Max + c11Slack + 16)
+// c11Master is the pseudo-random byte pool all payloads are slices of: an AES-CTR key stream
+// keyed by the seed (byte loops are far too slow under the race detector; the stream cipher
+// runs in uninstrumented assembly).
+func c11Master(seed uint64, n int) []byte {
+	key := kit.SubRand(seed, "C11/master").Bytes(32)
+	blk, err := aes.NewCipher(key[:16])
+	if err != nil {
+		panic(err)
+	}
+	b := make([]byte, n+16)
+	cipher.NewCTR(blk, key[16:]).XORKeyStream(b, b)
+	return b
 }
 
 // c11Need: which non-default features a failure class was found to depend on (by shrinking).
@@ -630,6 +643,7 @@ type c11Mon struct {
 	wd      time.Duration
 	need    map[string]c11Need
 	aborted bool
+	cases   int
 }
 
 func (m *c11Mon) fails(c c11Case, side, clause string) (c11Fail, bool) {
@@ -678,6 +692,10 @@ func (m *c11Mon) one(c c11Case) {
 		return
 	}
 	m.rec.Eval(1)
+	m.cases++
+	if c.Len >= c11Max/2 {
+		fmt.Printf("progress: case %d len=%d perturb=%d reader=%s done\n", m.cases, c.Len, c.Perturb, c.Reader)
+	}
 	m.rec.Count("stream.bytes_delivered", st.Bytes)
 	m.rec.Count("stream.reads", st.Reads)
 	m.rec.Count("wire.frames_parsed", int64(st.Frames))
@@ -840,7 +858,13 @@ func TestVerif_C11(t *testing.T) {
 	rec.Assume("the transport is a reliable ordered byte stream that may fragment arbitrarily (what TCP gives); ReadEphemeralPacketDirect (handshake only, single frame by contract) is not exercised")
 	rec.Assume("the expected frame layout comes from the protocol description: frames of 2^24-1 bytes while at least that many bytes remain, then one shorter (possibly empty) frame")
 	defer rec.Finish(t)
-	wd := 600 * time.Second
+	wd := 900 * time.Second
+	// Memory policy: in the sandbox a first-touched page costs about a millisecond and the
+	// race detector triples the pages, so the run time is the number of fresh pages. Collect
+	// only when the heap reaches a fixed limit (sized below for the largest payload) and keep
+	// what was freed instead of returning it to the OS: freed 16 MiB frame buffers are reused.
+	defer debug.SetGCPercent(debug.SetGCPercent(-1))
+	defer debug.SetMemoryLimit(debug.SetMemoryLimit(256 << 20))
 
 	if p := kit.ReplayPath(); p != "" {
 		var c c11Case
@@ -848,63 +872,57 @@ func TestVerif_C11(t *testing.T) {
 			t.Fatal(err)
 		}
 		if c.Soak {
-			c11Soak(rec, c11Master(kit.Seed()), wd)
+			c11Soak(rec, c11Master(kit.Seed(), 80000+c11Slack), wd)
 			return
 		}
-		m := &c11Mon{rec: rec, master: c11Master(c.MasterSeed), wd: wd, need: map[string]c11Need{}}
+		m := &c11Mon{rec: rec, master: c11Master(c.MasterSeed, c.Off+c.Len), wd: wd, need: map[string]c11Need{}}
 		m.one(c)
 		return
 	}
 
 	seed := kit.Seed()
-	m := &c11Mon{rec: rec, master: c11Master(seed), wd: wd, need: map[string]c11Need{}}
 	thorough := kit.Tier() == "thorough"
 	r := kit.SubRand(seed, "C11/cases")
 	seqs := []int{0, 1, 127, 254, 255}
 	deltas := []int{1, 255, 128, 77}
 
-	small := []int{0, 1, 2, 3, 4, 5, 127, 128, 129, 16379, 16380, 16381, 16384, 16385, 65535, 65536}
-	big := []int{c11Max - 2, c11Max - 1, c11Max, c11Max + 1, 2*c11Max - 1, 2 * c11Max, 2*c11Max + 1, 3 * c11Max}
-	nRandSmall, nRandBig := kit.N(8, 24), kit.N(6, 16)
-	for i := 0; i < nRandSmall; i++ {
-		small = append(small, r.Intn(200000))
+	// Data volume is the budget: under the race detector every fresh 16 MiB buffer the real
+	// code allocates costs seconds (shadow memory), so multi-frame lengths get a selection of
+	// the feature product (every reader, every frame kind; length, fragmentation, sequence
+	// and writer rotate with the seed) while single-frame lengths take the full product.
+	small := []int{0, 1, 2, 3, 4, 5, 127, 128, 129, 16379, 16380, 16381, 16384, 16385}
+	medium := []int{65535, 65536}
+	for i := 0; i < kit.N(4, 16); i++ {
+		medium = append(medium, r.Intn(200000))
 	}
-	for i := 0; i < nRandBig; i++ {
+	bound := []int{c11Max - 2, c11Max - 1, c11Max, c11Max + 1, 2*c11Max - 1, 2 * c11Max, 2*c11Max + 1}
+	if thorough {
+		bound = append(bound, 3*c11Max)
+	}
+	rnd := []int{}
+	for i := 0; i < kit.N(1, 4); i++ {
 		switch r.Intn(3) {
 		case 0: // near a multiple of the frame limit
-			big = append(big, r.Range(1, 3)*c11Max+r.Range(-600, 600))
+			rnd = append(rnd, r.Range(1, 2)*c11Max+r.Range(-600, 600))
 		case 1:
-			big = append(big, r.Range(c11Max, 3*c11Max+c11Slack-1))
+			rnd = append(rnd, r.Range(c11Max, 2*c11Max+c11Slack-1))
 		default:
-			big = append(big, r.Range(200000, c11Max-3))
+			rnd = append(rnd, r.Range(200000, c11Max-3))
 		}
 	}
-	for i, n := range big {
-		if n > 3*c11Max+c11Slack-1 {
-			big[i] = 3*c11Max + c11Slack - 1
+	maxLen := 0
+	for _, n := range append(append([]int{}, bound...), rnd...) {
+		if n > maxLen {
+			maxLen = n
 		}
 	}
+	// master + reassembled payload with its append growth + written frame copy + next frame + slack
+	debug.SetMemoryLimit(3*int64(maxLen) + 2*c11Max + 16<<20)
+	m := &c11Mon{rec: rec, master: c11Master(seed, maxLen+c11Slack), wd: wd, need: map[string]c11Need{}}
 	mk := func(n, seq int, frag, reader, writer string, perturb, delta int) c11Case {
 		return c11Case{MasterSeed: seed, Len: n, Off: r.Intn(16), Seq: seq, Frag: frag, FragSeed: r.Uint64(), Reader: reader, Writer: writer, Perturb: perturb, Delta: delta}
 	}
-	perturbAll := func(n int, rot int) {
-		fl := c11ExpFrames(n)
-		for k := range fl {
-			for ri, reader := range c11Readers {
-				ds := deltas
-				if !thorough {
-					ds = []int{deltas[(rot+k+ri)%len(deltas)]}
-				}
-				for di, d := range ds {
-					j := rot + k + ri + di
-					m.one(mk(n, seqs[j%len(seqs)], c11Frags[j%len(c11Frags)], reader, c11Writers[j%len(c11Writers)], k, d))
-				}
-			}
-		}
-	}
-
-	// (1) small lengths: full product of sequence x fragmentation x reader x writer
-	for li, n := range small {
+	product := func(n int) {
 		for _, seq := range seqs {
 			for _, frag := range c11Frags {
 				for _, reader := range c11Readers {
@@ -914,35 +932,88 @@ func TestVerif_C11(t *testing.T) {
 				}
 			}
 		}
-		perturbAll(n, li)
 	}
-	// (2) multi-frame lengths
-	for li, n := range big {
-		if thorough && li < 8 {
-			for _, seq := range seqs {
-				for _, frag := range c11Frags {
-					for _, reader := range c11Readers {
-						for _, writer := range c11Writers {
-							m.one(mk(n, seq, frag, reader, writer, -1, 0))
-						}
-					}
-				}
-			}
-		} else {
-			// covering selection: every value of every dimension appears, rotated by length index and seed
-			rot := li + int(seed%7)
-			for i := 0; i < 6; i++ {
-				j := rot + i
-				m.one(mk(n, seqs[j%5], c11Frags[i], c11Readers[j%2], c11Writers[j%3], -1, 0))
+	// k cases; reader alternates starting from rot, the fragmentations are walked in order,
+	// sequence and writer are drawn from the seed
+	cover := func(n, k, rot int) {
+		for i := 0; i < k; i++ {
+			m.one(mk(n, seqs[r.Intn(5)], c11Frags[(rot+i)%6], c11Readers[(rot+i)%2], c11Writers[r.Intn(3)], -1, 0))
+		}
+	}
+	perturb := func(n, k int, reader string, defaults bool, ds []int) {
+		for _, d := range ds {
+			if defaults {
+				m.one(mk(n, 0, "whole", reader, "direct", k, d))
+			} else {
+				m.one(mk(n, seqs[r.Intn(5)], c11Frags[r.Intn(6)], reader, c11Writers[r.Intn(3)], k, d))
 			}
 		}
-		perturbAll(n, li+int(seed%5))
 	}
+	perturbAll := func(n int, ds []int) {
+		for k := range c11ExpFrames(n) {
+			for _, reader := range c11Readers {
+				perturb(n, k, reader, false, ds)
+			}
+		}
+	}
+	oneDelta := func() []int { return []int{deltas[r.Intn(4)]} }
+
+	// (1) single-frame lengths
+	for _, n := range small {
+		product(n)
+		if thorough {
+			perturbAll(n, deltas)
+		} else {
+			perturbAll(n, oneDelta())
+		}
+	}
+	fmt.Printf("progress: small lengths done, %d cases\n", m.cases)
+	for li, n := range medium {
+		if thorough {
+			product(n)
+		} else {
+			cover(n, 12, li+int(seed%6))
+		}
+		perturbAll(n, oneDelta())
+	}
+	fmt.Printf("progress: medium lengths done, %d cases\n", m.cases)
+	// (2) lengths at and across the frame limit
+	if thorough {
+		for li, n := range bound {
+			cover(n, 2, li+int(seed%6))
+			perturbAll(n, oneDelta())
+		}
+		for li, n := range rnd {
+			cover(n, 1, li+int(seed%6)+1)
+			fl := c11ExpFrames(n)
+			perturb(n, r.Intn(len(fl)), c11Readers[r.Intn(2)], false, oneDelta())
+		}
+	} else {
+		// every reader: a frame plus its empty terminator, unperturbed and with the
+		// terminator's sequence id altered; the three-frame payload, the altered last /
+		// middle / first frame and one more boundary length alternate between the readers
+		// with the seed (the thorough tier runs all of them for both readers)
+		ra, rb := c11Readers[int(seed%2)], c11Readers[int((seed+1)%2)]
+		for _, reader := range c11Readers {
+			m.one(mk(c11Max, seqs[r.Intn(5)], c11Frags[r.Intn(6)], reader, c11Writers[r.Intn(3)], -1, 0))
+			perturb(c11Max, 1, reader, true, []int{1}) // empty terminator, default features
+		}
+		m.one(mk(2*c11Max+1, seqs[r.Intn(5)], c11Frags[1+r.Intn(5)], ra, c11Writers[r.Intn(3)], -1, 0))
+		perturb(c11Max+1, 1, rb, false, oneDelta())               // last
+		perturb(2*c11Max+1-int(seed%2), 1, ra, false, oneDelta()) // middle
+		perturb(c11Max+1-int(seed%2), 0, rb, false, oneDelta())   // first / only
+		rest := []int{c11Max - 2, c11Max - 1, c11Max + 1, 2*c11Max - 1, 2 * c11Max}
+		cover(rest[int(seed%5)], 1, int(seed%6))
+		for li, n := range rnd {
+			cover(n, 1, li+int(seed%6)+1)
+		}
+	}
+	fmt.Printf("progress: multi-frame lengths done, %d cases\n", m.cases)
 	// (3) several connections sharing the buffer pool concurrently
 	if !m.aborted {
 		c11Soak(rec, m.master, wd)
 	}
-	lens := append(append([]int{}, small...), big...)
+	lens := append(append(append(append([]int{}, small...), medium...), bound...), rnd...)
 	sort.Ints(lens)
 	rec.Set("payload_lengths", lens)
 }
